@@ -1,5 +1,5 @@
 """C14 - Composed operators run their parts in order and stop at the first failure."""
-from .pat import ANY, Bind, Call, Param, Field, Through, Agg, Const, match, find, callee_is, path_ends
+from .pat import ANY, Bind, Call, Param, CParam, Field, Through, Agg, Const, match, find, callee_is, path_ends
 from .sym import short, subexprs
 from .common import (TryOk, TryErr, is_err_return, return_paths, peel, mentions, derives_from_self, rng_passthrough,
                      check_forwarder, closure_paths, audit_panics, CallGraph)
@@ -99,7 +99,7 @@ def check(ctx):
                 cps = closure_paths(ctx, e)
                 if not cps or len(cps) != 1:
                     return False
-                return match(cps[0].ret, Agg("MapError::MapError", Param(2), Const(i)))
+                return match(cps[0].ret, Agg("MapError::MapError", CParam(2), Const(i)))
             return chk
         r0 = Bind("r0", Call("Result::map_err", apply_of("f", lambda a: a == elem(0)), tagged(0, None), nargs=2))
         r1 = Bind("r1", Call("Result::map_err", apply_of("f", lambda a: a == elem(1)), tagged(1, None), nargs=2))
@@ -134,13 +134,13 @@ def check(ctx):
             r = cps[0].ret
             detail = short(r, 7)
             b2 = {}
-            pat = Call("Result::map_err", Call("Operator::apply", lambda a: derives_from_self(a, field="f"), lambda a: a == ("field", ("param", 2), 1, None),
+            pat = Call("Result::map_err", Call("Operator::apply", lambda a: derives_from_self(a, field="f"), lambda a: a[0] == "field" and a[2] == 1 and a[1][:2] == ("cparam", 2) and a[1][2] == clo[2],
                                                 lambda a: rng_passthrough(a, 3), nargs=3), Bind("tag"), nargs=2)
             if match(r, pat, b2) and b2["tag"][0] == "agg" and b2["tag"][1] == "closure":
                 tps = closure_paths(ctx, b2["tag"])
                 if tps and len(tps) == 1:
                     # MapError(e, i) with i = the enumerate index = field 0 of the outer closure's argument
-                    ok2 = match(tps[0].ret, Agg("MapError::MapError", Param(2), lambda x: peel(x, ()) == ("field", ("param", 2), 0, None)))
+                    ok2 = match(tps[0].ret, Agg("MapError::MapError", CParam(2), lambda x: peel(x, ())[0] == "field" and peel(x, ())[2] == 0 and peel(x, ())[1][:2] == ("cparam", 2) and peel(x, ())[1][2] == clo[2]))
                     detail += " / tag: " + short(tps[0].ret, 5)
         ctx.check(ok2, "R14.3", "Map<Vec>/closure-applies-f-to-element-tagged-with-enumerate-index", detail, f.at())
 
